@@ -120,7 +120,7 @@ class Corpus:
                 if bad_items:
                     items_by_id = {it.id: it for it in g.items}
                     for k, e in bad_items.items():
-                        derive_errors.append({"crate": name, "item": k, "message": e["message"], "expansion": e["expansion"],
+                        derive_errors.append({"crate": name, "item": k, "message": e["message"], "code": e.get("code"), "expansion": e["expansion"],
                                               "source": tsgen.emit_item(items_by_id[k]) if k in items_by_id else None,
                                               "rendered": e["rendered"]})
                         self.dropped.setdefault(name, {})[k] = e["message"]
